@@ -19,13 +19,20 @@ FracSeq == [i \in 1..Len(QuarterNums) |-> Flt(QuarterNums[i], 4)] \o <<Flt(10, 1
 NumStrs == <<Str(<<51>>), Str(<<45, 50>>), Str(<<50, 46, 53>>), Str(<<48>>), Str(<<45, 48, 46, 50, 53>>), Str(<<49, 48>>),
              Str(<<48, 49, 48>>), Str(<<48, 49, 50>>), Str(<<48, 48, 55>>), Str(<<45, 48, 49, 49>>)>>
 BadStrs == <<Str(<<97, 98, 99>>), Str(<<>>), Str(<<51, 120>>), Str(<<32>>)>>
-Recvs == IntSeq \o FracSeq \o NumStrs \o BadStrs \o <<Nil>>
-Args == IntSeq \o FracSeq \o <<Str(<<51>>), Str(<<97, 98, 99>>), Nil>>
+\* whole numbers beyond 32 bits that are exactly 64-bit floats (up to 2^53), as integers and as strings of digits: 2^53,
+\* 2^53 - 1, 2^52, 2^52 + 1, 2^40, 10^12 + 1
+BigDigits == << <<57, 48, 48, 55, 49, 57, 57, 50, 53, 52, 55, 52, 48, 57, 57, 50>>, <<57, 48, 48, 55, 49, 57, 57, 50, 53, 52, 55, 52, 48, 57, 57, 49>>,
+                <<52, 53, 48, 51, 53, 57, 57, 54, 50, 55, 51, 55, 48, 52, 57, 54>>, <<52, 53, 48, 51, 53, 57, 57, 54, 50, 55, 51, 55, 48, 52, 57, 55>>,
+                <<49, 48, 57, 57, 53, 49, 49, 54, 50, 55, 55, 55, 54>>, <<49, 48, 48, 48, 48, 48, 48, 48, 48, 48, 48, 48, 49>> >>
+BigSeq == [i \in 1..Len(BigDigits) |-> BigV(FALSE, BigDigits[i])] \o [i \in 1..Len(BigDigits) |-> Str(BigDigits[i])]
+Recvs == IntSeq \o FracSeq \o NumStrs \o BadStrs \o <<Nil>> \o BigSeq
+IsBigRecv(i) == i > Len(Recvs) - Len(BigSeq)
+Args == IntSeq \o FracSeq \o <<Str(<<51>>), Str(<<97, 98, 99>>), Nil>> \o <<Flt(11, 4), Flt(7, 8), Flt(3, 2), IntV(7), IntV(10), IntV(999)>>
 
 Binary == {"plus", "minus", "times", "divided_by", "modulo"}
 \* ai: index into Args for the binary filters; for round 0 = no argument, 1..3 = places 0..2; 0 otherwise
 Init == /\ xi \in 1..Len(Recvs)
-        /\ op \in Binary \cup {"abs", "ceil", "floor", "round"}
+        /\ op \in IF IsBigRecv(xi) THEN {"modulo"} ELSE Binary \cup {"abs", "ceil", "floor", "round"}
         /\ ai \in IF op \in Binary THEN 1..Len(Args) ELSE IF op = "round" THEN 0..3 ELSE {0}
 Next == UNCHANGED vars
 
@@ -67,6 +74,8 @@ ZeroDivisorIsError == (call.name \in {"divided_by", "modulo"} /\ XN.r = "num" /\
 NotANumberIsError == (XN.r = "err") => R.r = "err"
 ModuloRange == (call.name = "modulo" /\ BothNum /\ Dec) =>
                   /\ ~NumLess(R.v, IntV(0)) /\ NumLess(R.v, call.args[1])
+\* the big receivers are decided for every small positive divisor with a power-of-two denominator
+BigModuloDecided == (IsBigRecv(xi) /\ IsNum(call.args[1]) /\ NumN(call.args[1]) > 0 /\ NumD(call.args[1]) \in {1, 2, 4, 8}) => Dec
 
 X == <<120>>
 Prog == << [t |-> "obj", e |-> [t |-> "filter", e |-> [t |-> "var", name |-> X], name |-> call.name,
